@@ -212,6 +212,215 @@ def t_mul(E, kind):
 
 
 # ---------------------------------------------------------------------------
+# /   Float._div_den by loop invariant: the quotient of the mantissas for ALL operands
+
+def t_div_den(E, kind, power_of_two=False):
+    """Restoring division with a divisor that is shifted right (and so truncated) every step.
+    With i iterations done, R the divisor mantissa on entry, L the dividend mantissa,
+    Q = lman, w = work_man, r = rman, the invariant is (i concrete per path, 0..p):
+        r = R div 2^i,   lexp = lexp_entry - i,   0 <= Q < 2^i (Q = 0 for i = 0),   0 <= w,
+        0 <= 2*Q*R - (L - w)*2^i <= max(i-1,0)*2^i  (the quotient bits account for L - w, up to the truncation)
+        w <= 2*r + i  (2*r - 1 on entry)             (the remainder stays small)
+    On exit (i = p, r = 0) this gives |2*Q*R - L*2^p| <= p*2^p: the quotient mantissa is
+    L/R * 2^(p-1) within p/2 units of its last place - with 8 guard bits that is < 0.13 ulp
+    of the result before rounding."""
+    cls = CLS[kind]
+    p = 8 * (cls.size - 1) + 8          # width of a denormalised mantissa: 32 or 64
+    M = 1 << (p - 1)
+    vals = values_env()
+    x = E.new(cls, None, vals)
+    L = E.int('L', M, 2 * M - 1)
+    R = M if power_of_two else E.int('R', M, 2 * M - 1)
+    le, re_ = E.int('lexp', 1, 255), E.int('rexp', 1, 255)
+    ln, rn = E.bool('lneg'), E.bool('rneg')
+    state = {}
+
+    def steps(Lc):
+        if 'e0' not in state:
+            state['e0'] = Lc['lexp']          # value at loop entry (first evaluation of the invariant)
+        return state['e0'] - Lc['lexp']
+
+    def inv(Lc):
+        it = steps(Lc)
+        Q, w, r = Lc['lman'], Lc['work_man'], Lc['rman']
+        QR = Q * R
+        per_i = []
+        for i in range(p + 1):
+            P = 1 << i
+            acc = 2 * QR - (L - w) * P
+            # step 0 divides by R itself (no truncation), so i steps lose less than i-1 units
+            # a divisor mantissa that is a power of two is never truncated: the accounting is exact
+            per_i.append(Implies(it == i, And(r == R // P, Q < P if i else Q == 0, acc >= 0,
+                                              acc <= (0 if power_of_two else max(i - 1, 0) * P),
+                                              w <= 2 * r + i - (1 if i == 0 else 0))))
+        return And(it >= 0, it <= p, Q >= 0, w >= 0, w <= L, *per_i)
+
+    def variant(Lc):
+        return Lc['rman']
+
+    def on_exit(Lc):
+        E.cover('exit')
+        E.prove(steps(Lc) == p, 'the loop runs once per mantissa bit')
+        state['exit'] = dict(Lc)
+
+    E.interp.loop_contracts['_div_den'] = {'invariant': inv, 'variant': variant, 'exit': on_exit,
+                                           'iteration': lambda b, a, ys: E.cover('iteration')}
+    r = E.call(x._div_den, (le, L, ln), (re_, R, rn))
+    E.prove(not r.raised, 'never raises')
+    if r.raised:
+        return
+    lexp, Q, neg = r.value
+    E.prove(Abs(2 * (Q * R) - L * (1 << p)) <= p * (1 << p),
+            'the quotient mantissa Q satisfies |2*Q*R - L*2^p| <= p*2^p: L/R scaled by 2^(p-1), within p/2 units')
+    E.prove(And(Q >= 0, Q < (1 << p)), 'the quotient fits the mantissa width')
+    if power_of_two:
+        E.prove(And(Q <= L, Q >= L - p), 'dividing by a power of two: the quotient mantissa is the dividend mantissa less the final remainder (at most p)')
+    E.prove(lexp == le - re_ + cls._bias + 8 + 1 - p, 'exponent of the quotient: difference of the exponents, rebased, minus one per quotient bit')
+    E.prove(Iff(neg, Xor(ln, rn)) if 'Xor' in globals() else Iff(neg, Or(And(ln, Not(rn)), And(Not(ln), rn))), 'sign of the quotient')
+
+
+def _div_den_contract(E, cls, seen=None):
+    """Summary of Float._div_den justified by t_div_den (same postcondition, proved there by invariant)."""
+    pw = 8 * (cls.size - 1) + 8
+    def h(I, args, kw):
+        self, lden, rden = args
+        lexp, L, lneg = lden
+        rexp, R, rneg = rden
+        Q = E.fresh('quotient', 0, (1 << pw) - 1)
+        acc = 2 * (Q * R) - L * (1 << pw)
+        E.assume(And(acc <= pw * (1 << pw), acc >= -pw * (1 << pw)))
+        if seen is not None:
+            seen['Q'] = Q
+        return (lexp - rexp + cls._bias + 8 + 1 - pw, Q, Or(And(lneg, Not(rneg)), And(Not(lneg), rneg)))
+    return h
+
+
+def t_div_by_one(E, kind):
+    """C05: x / 1 = x bit for bit, from the exact power-of-two contract of _div_den."""
+    cls = CLS[kind]
+    p = f_prec(cls)
+    pw = p + 8
+    vals = values_env()
+    x = new_float(E, cls, vals, 'x')
+    x0 = snapshot(x)
+    one = E.new(cls, None, vals)
+    E.call(one.from_int, 1)
+    E.interp.contracts[numbers.Float._denormalise] = _denormalise_contract
+    def h(I, args, kw):
+        self, lden, rden = args
+        lexp, L, lneg = lden
+        rexp, R, rneg = rden
+        if not (isinstance(R, int) and R == 1 << (pw - 1)):
+            raise Unsupported('power-of-two contract used with another divisor')
+        Q = E.fresh('quotient', 0, (1 << pw) - 1)
+        E.assume(And(Q <= L, Q >= L - pw))
+        return (lexp - rexp + cls._bias + 8 + 1 - pw, Q, Or(And(lneg, Not(rneg)), And(Not(lneg), rneg)))
+    E.interp.contracts[numbers.Float._div_den] = h
+    r = E.call(values.div, x, one)
+    E.prove(not r.raised, 'x / 1 never raises')
+    if r.raised:
+        return
+    E.prove(type(r.value) is cls, 'result has the operand type')
+    if bool(f_is_zero(x)):
+        E.prove(f_is_zero(r.value), '0 / 1 = 0')
+    else:
+        E.prove(same_bytes(r.value, x0), 'x / 1 = x bit for bit')
+    E.prove(same_bytes(x, x0), 'operand unchanged')
+
+
+_DIV_BANDS = ([(-254, -200), (-199, -150), (-149, -129), (-128, -120), (-119, -60), (-59, 0), (1, 60), (61, 110), (111, 127)] +
+              [(a, min(a + 7, 254)) for a in range(128, 255, 8)])
+
+
+def t_div(E, kind, band):
+    """values.div for ALL operands (the exponent difference is split into bands only to spread the work), modular: _denormalise and _div_den by their proved contracts,
+    normalisation, rounding, limits and error handling from the real source."""
+    cls = CLS[kind]
+    p = f_prec(cls)
+    pw = p + 8
+    B = 128 + p
+    vals = values_env()
+    x = new_float(E, cls, vals, 'x')
+    y = new_float(E, cls, vals, 'y')
+    x0, y0 = snapshot(x), snapshot(y)
+    E.interp.contracts[numbers.Float._denormalise] = _denormalise_contract
+    seen = {}
+    E.interp.contracts[numbers.Float._div_den] = _div_den_contract(E, cls, seen)
+    ex, ey = f_exp(x), f_exp(y)
+    lo, hi = _DIV_BANDS[band]
+    if band == 0:
+        # zero operands (exponent byte 0) are handled in the first band
+        E.assume(Or(f_is_zero(x), f_is_zero(y), And(ex - ey >= lo, ex - ey <= hi)))
+    else:
+        E.assume(And(Not(f_is_zero(x)), Not(f_is_zero(y)), ex - ey >= lo, ex - ey <= hi))
+    mx, my = f_man(x), f_man(y)
+    neg = Or(And(f_neg(x), Not(f_neg(y))), And(Not(f_neg(x)), f_neg(y)))
+    r = E.call(values.div, x, y)
+    E.prove(And(same_bytes(x, x0), same_bytes(y, y0)), 'operands unchanged')
+    maxman = (1 << p) - 1
+    if bool(f_is_zero(y)):
+        E.cover('division by zero')
+        E.prove(r.is_error(BASICError, error.DIVISION_BY_ZERO), 'zero divisor raises Division by zero')
+        return
+    if bool(f_is_zero(x)):
+        E.prove(not r.raised and bool(f_is_zero(r.value)), 'zero dividend gives zero')
+        return
+    if r.raised:
+        E.cover('overflow')
+        E.prove(r.is_error(BASICError, error.OVERFLOW), 'raises only Overflow')
+        # exact quotient mx/my * 2^(ex-ey) exceeds (2^p - 2) * 2^(255-B) (within the proved tolerance):
+        # mx * 2^(ex-ey+B-255) > (2^p - 3) * my
+        for t in E.each_value(ex - ey + B - 255):
+            if t >= 0:
+                E.prove(mx * (1 << t) > (maxman - 2) * my, 'Overflow only when the exact quotient exceeds the largest number (within the tolerance)')
+            else:
+                E.prove(mx > (maxman - 2) * my * (1 << -t), 'Overflow only when the exact quotient exceeds the largest number (within the tolerance)')
+        return
+    res = r.value
+    E.prove(type(res) is cls, 'result has the operand type')
+    if bool(f_is_zero(res)):
+        E.cover('underflow')
+        # |quotient| < 2^-128 (+ tolerance): mx/my * 2^(ex-ey) < 2^(p-1) * 2^(1-B) * (1 + 2^-(p-2))
+        for t in E.each_value(ex - ey + B - p):
+            if t >= 0:
+                E.prove(mx * (1 << t) * (1 << (p - 2)) < my * ((1 << (p - 2)) + 1),
+                        'non-zero quotient replaced by zero only below the smallest positive number (within the tolerance)')
+            else:
+                E.prove(mx * (1 << (p - 2)) < my * ((1 << (p - 2)) + 1) * (1 << -t),
+                        'non-zero quotient replaced by zero only below the smallest positive number (within the tolerance)')
+        return
+    E.cover('nonzero')
+    E.prove(Iff(f_neg(res), neg), 'sign of the quotient')
+    # value(res) = mr * 2^(er-B); exact = mx/my * 2^(ex-ey); in ulps of the result: mx * 2^c / my with
+    c = E.concretize(ex - ey + B - f_exp(res))
+    mr = f_man(res)
+    # lemma (cut): how the result mantissa comes from the quotient mantissa Q - normalisation shift s,
+    # round to nearest of the 8 guard bits, possibly a carry into the next exponent. Proved on this
+    # path from the real _normalise, then used as a fact: it is linear in Q.
+    Q = seen['Q']
+    k = E.concretize((ex - ey + cls._bias + 9 - pw) - f_exp(res))       # shift minus carry
+    no_carry = And(256 * mr - Q * (1 << k) <= 128, 256 * mr - Q * (1 << k) >= -128) if k >= 0 else False
+    carry = And(mr == (1 << (p - 1)), 512 * mr - Q * (1 << (k + 1)) <= 128, 512 * mr - Q * (1 << (k + 1)) >= -128) if k + 1 >= 0 else False
+    lemma = Or(no_carry, carry)
+    if E.prove(lemma, 'result mantissa = quotient mantissa shifted into place and rounded to nearest (half a unit of 256)'):
+        E.assume(lemma)
+    # tolerance: half a unit of the rounding (128/256) plus the quotient's pw/2 units shifted by s
+    sh = k if bool(no_carry) else k + 1
+    tol_num, tol_den = 128 + pw * (1 << max(sh, 0)), 256
+    if tol_num < tol_den:
+        E.cover('less than 1 ulp')
+        label = 'within less than 1 ulp of the exact quotient (%d/256)' % tol_num
+    else:
+        E.cover('boundary tolerance')
+        label = 'within %d/256 ulp of the exact quotient, i.e. at most one unit (the strict "< 1 ulp" of the statement is only sampled for this case)' % tol_num
+    if c >= 0:
+        E.prove(Abs(mr * my - mx * (1 << c)) * tol_den <= tol_num * my, label)
+        E.canary(mr * my == mx * (1 << c), 'canary: quotient always exact')
+    else:
+        E.prove(Abs(mr * my * (1 << -c) - mx) * tol_den <= tol_num * my * (1 << -c), label)
+
+
+# ---------------------------------------------------------------------------
 # /   (bounded stand-in: the long-division loop of Float._div_den needs an inductive
 #      invariant with nonlinear ghost state that is not discharged yet - see DESIGN.md)
 
@@ -366,6 +575,11 @@ TASKS = [
                 for a, b in _dchunks(56) if (a, b) not in _DBL_QUICK for o in ('x>=y', 'x<y')]),
     Task('Float._denormalise', t_denormalise, cases=[{'kind': k} for k in CLS]),
     Task('values.mul', t_mul, cases=[{'kind': k} for k in CLS], covers=('overflow', 'underflow', 'nonzero')),
+    Task('Float._div_den (loop invariant)', t_div_den, cases=[{'kind': k, 'power_of_two': o} for k in CLS for o in (False, True)],
+         covers=('iteration', 'exit'), timeout_ms=60000),
+    Task('x / 1 = x', t_div_by_one, cases=[{'kind': k} for k in CLS]),
+    Task('values.div (all operands, modular)', t_div, cases=[{'kind': k, 'band': b} for k in CLS for b in range(len(_DIV_BANDS))],
+         covers=('division by zero', 'overflow', 'underflow', 'nonzero'), timeout_ms=60000, max_seconds=3000),
     Task('values.div (bounded)', t_div_bounded, cases=[{'kind': k} for k in CLS], bounded=True,
          samples=(20000, 400000),
          scope='random and boundary-dense operand bit patterns (mantissa bytes and exponents drawn independently); '
@@ -383,4 +597,4 @@ ASSUMPTIONS = [
     'values.mul is verified against the contract of Float._denormalise (proved by task Float._denormalise), not its body',
     'products of two symbolic mantissas are z3 nonlinear integer terms (shared by code and spec)',
 ]
-NOT_COVERED = ['Float._div_den / idiv: bounded stand-in only (sampling), the inductive invariant of the long-division loop is not discharged']
+NOT_COVERED = ['the strict "less than one unit" for / in the cases where the proved tolerance is exactly 256/256 ulp (double: quotient mantissa below 1; single: double normalisation shift): sampled only']
